@@ -350,6 +350,9 @@ class DynGraph(nx.Graph):
 
         # reject out-of-order extensions before anything is modified
         if u in self._adj and v in self._adj[u] and 't' in self._adj[u][v]:
+            # the pair's stream events are keyed by the endpoint order of its first call
+            if (v, u, "+") in self.time_to_edge.get(self._adj[u][v]['t'][0][0], {}):
+                u, v = v, u
             if (t[0] if isinstance(t, list) else t) < self._adj[u][v]['t'][-1][0]:
                 raise ValueError("The specified interaction extension is broader than "
                                  "the ones already present for the given nodes.")
